@@ -451,5 +451,7 @@ def diff_streams(ctx, name, ops, impl, model, cls_of=None, max_report=3):
         if a != b:
             n += 1
             if n <= max_report:
-                ctx.obligation_failed("correspondence:" + name, "op=%r impl=%r model=%r" % (op[:300], a[:300], b[:300]))
+                k = next((i for i, (x, y) in enumerate(zip(a, b)) if x != y), min(len(a), len(b)))
+                ctx.obligation_failed("correspondence:" + name, "op=%r impl=%r model=%r first-difference-at=%d impl[..]=%r model[..]=%r" % (
+                    op[:300], a[:300], b[:300], k, a[max(0, k - 60):k + 80], b[max(0, k - 60):k + 80]))
     return n
